@@ -1269,9 +1269,10 @@ pub fn replay_path(run: &Run, replay: &Value) -> bool {
     };
     let fm: u128 = first.get("fee_multiplier").and_then(|f| f.as_str()).and_then(|s| s.parse().ok()).unwrap_or(0);
     let wallet = first.get("wallet").and_then(|w| w.as_bool()).unwrap_or(true);
-    let (_w, mut node) = crate::props::e1::root(net, fm, wallet);
+    let variant = first.get("genesis_variant").and_then(|v| v.as_u64()).unwrap_or(0) as u8;
+    let (_w, mut node) = crate::props::e1::root_variant(net, fm, wallet, variant);
     let eng = Engine::new(run);
-    println!("replay: root genesis[{:?}] fee_multiplier={} wallet={}", net, fm, wallet);
+    println!("replay: root genesis[{:?}] fee_multiplier={} wallet={} genesis configuration {}", net, fm, wallet, variant);
     for step in path.iter().skip(1) {
         let action = if step.get("open").is_some() {
             Action::Open
